@@ -265,6 +265,30 @@ func readParquetFile(path string) ([]map[string]any, error) {
 	return readParquetBytes(b)
 }
 
+// readParquetDedupMeta reports the deduplication metadata a file actually
+// carries in its footer: the arc:tags column list (nil when absent or empty)
+// and the arc:dedup_time marker.
+func readParquetDedupMeta(path string) (tags []string, dedupTime bool, err error) {
+	b, err := os.ReadFile(path)
+	if err != nil {
+		return nil, false, err
+	}
+	rdr, err := file.NewParquetReader(bytes.NewReader(b))
+	if err != nil {
+		return nil, false, fmt.Errorf("open parquet: %w", err)
+	}
+	defer rdr.Close()
+	kv := rdr.MetaData().KeyValueMetadata()
+	if v := kv.FindValue("arc:tags"); v != nil && *v != "" {
+		tags = strings.Split(*v, ",")
+		sort.Strings(tags)
+	}
+	if v := kv.FindValue("arc:dedup_time"); v != nil && *v == "true" {
+		dedupTime = true
+	}
+	return tags, dedupTime, nil
+}
+
 func cell(a arrow.Array, i int) any {
 	if a.IsNull(i) {
 		return nil
@@ -451,6 +475,9 @@ type pod struct {
 	colocate bool // run jobs on the pod's node (pod-crash episodes) instead of their own node
 	jobs     []*jobRec
 	onJob    func(j *jobRec) // called right before the job task starts (arms faults)
+	// inspect, when set, sees the input list of every job before it starts
+	// (diagnosis only; must not touch instrumented code)
+	inspect func(files []string)
 	// partInputs counts job inputs that are ".part" staging files
 	partInputs int
 }
@@ -548,6 +575,9 @@ func hookRunJob(ctx context.Context, cfg *compaction.SubprocessJobConfig, logger
 		}
 	}
 	simrt.Event("JOB-START job=%d files=%d batch=%d", j.idx, len(cfg.Files), cfg.BatchNumber)
+	if p.inspect != nil {
+		p.inspect(cfg.Files)
+	}
 	if p.onJob != nil {
 		p.onJob(j)
 	}
